@@ -40,11 +40,11 @@ BASE_WEIGHTS = {'train_step': 6, 'backward_only': 1.5, 'opt_step': 1.5, 'forward
 
 
 def generate(seed, run, tier):
-    # thorough: every 4th schedule is systematically re-run with the crash at each position
+    # thorough: one schedule per block is systematically re-run with a single crash at each position
     base_run = run
     crash_pos = None
     if tier == 'thorough':
-        block = 32
+        block = 48       # 8 ordinary runs + the schedule of slot 7 re-run with one crash at each of 40 positions
         blk, off = divmod(run, block)
         if off >= 8:
             base_run = blk * block + 7       # the schedule of slot 7 of this block
